@@ -4,6 +4,7 @@ import (
 	"fmt"
 	"go/token"
 	"go/types"
+	"sort"
 	"strings"
 
 	"fsverif/eng"
@@ -16,6 +17,7 @@ func init() {
 }
 
 func runC02(c *Ctx) {
+	r02_9(c, "R02.9")
 	if c.Unix() {
 		r02_8(c, "R02.8")
 	}
@@ -1066,6 +1068,67 @@ func r02_8(c *Ctx, rule string) {
 				}
 			}
 			c.R.Check(bad == "", rule, con, c.pos(dec), "every decoded bit comes from its place in the device word", "Stat."+field+" is decoded differently ("+bad+"): two devices that differ only there get the same identity on both sides and a renumbering is never re-transferred")
+		}
+	}
+}
+
+// R01.15 (= R02.9): the diff ends only when BOTH walks are exhausted.
+//
+// The loop merges the destination walk and the received walk. If it could end
+// with one of them still open, the entries left in that walk would never be
+// compared: stale destination entries would survive (destination walk left
+// over) or received entries would never be written (source walk left over).
+// For each of the two channels: assuming every "channel is not nil" test of
+// that channel says "still open", no success return is reachable.
+func r02_9(c *Ctx, rule string) {
+	c.R.Rule(rule, "doubleWalkDiff: while either walker's channel is still open (not yet set to nil) the comparing loop cannot return success")
+	loop := diffLoop(c, rule)
+	if loop == nil {
+		return
+	}
+	locProg = c.P
+	x := c.explorer(loop)
+	groups := map[string]map[string]bool{}
+	eng.InstrsCtx(loop, func(in ssa.Instruction, stack []*ssa.Call) {
+		bo, ok := in.(*ssa.BinOp)
+		if !ok || (bo.Op != token.NEQ && bo.Op != token.EQL) {
+			return
+		}
+		k, isC := bo.Y.(*ssa.Const)
+		if !isC || !k.IsNil() {
+			return
+		}
+		if _, isChan := bo.X.Type().Underlying().(*types.Chan); !isChan {
+			return
+		}
+		id := chanIdentity(c, bo.X, stack, 0)
+		if id == "" {
+			return
+		}
+		if groups[id] == nil {
+			groups[id] = map[string]bool{}
+		}
+		groups[id][x.KeyAtEntry(bo)] = bo.Op == token.NEQ
+	})
+	if len(groups) != 2 {
+		c.R.Undecided(rule, c.name(loop)+"/both-walks-drained", c.P.Pos(loop.Pos()), fmt.Sprintf("expected the nil tests of two channels in the comparing loop, found %d: shape not interpreted", len(groups)))
+		return
+	}
+	var ids []string
+	for id := range groups {
+		ids = append(ids, id)
+	}
+	sort.Strings(ids)
+	for i, id := range ids {
+		hit, und := c.SuccessAvoiding(loop, nil, groups[id], nil, nil)
+		con := fmt.Sprintf("%s/walk#%d-drained-before-success", c.name(loop), i+1)
+		switch {
+		case und:
+			c.R.Undecided(rule, con, c.P.Pos(loop.Pos()), "state limit")
+		case hit != nil:
+			c.R.Fail(rule, con, c.pos(hit.Instr), "the comparing loop can return success while the channel "+id+" is still open: the entries left in that walk are never compared (stale destination entries survive, or received entries are never written); path "+eng.BlockTrace(loop, hit.Trace))
+		default:
+			c.R.OK(rule, con, c.P.Pos(loop.Pos()), "no success return while this walk's channel is open")
 		}
 	}
 }
